@@ -13,7 +13,7 @@ func (g *Generator) loadTypeMapperPkg(typeName string) string {
 	//todo: recursive
 	var mappers string
 	for _, f := range g.Pkg().Syntax {
-		ast.Inspect(f, func(n ast.Node) bool {
+		shoot.InspectTopLevel(f, func(n ast.Node) bool {
 			if !g.testNode(typeName, n) {
 				return true
 			}
